@@ -249,9 +249,16 @@ func genC16Duplex(rt *rapid.T) *duplexCase {
 	return c
 }
 
-func TestC16Duplex(t *testing.T) {
-	const unit = "TestC16Duplex"
-	rec := stats.New(t, "C16", unit)
+func TestC16Duplex(t *testing.T) { duplexUnit(t, "C16", "TestC16Duplex") }
+
+// TestC08Duplex: "with the two directions interleaved arbitrarily" also means
+// interleaved inside a record: each direction's cipher stream keeps
+// decrypting to what was written when the other direction's records are
+// written / read between the fragments of this one.
+func TestC08Duplex(t *testing.T) { duplexUnit(t, "C08", "TestC08Duplex") }
+
+func duplexUnit(t *testing.T, prop, unit string) {
+	rec := stats.New(t, prop, unit)
 	var rc duplexCase
 	if stats.ReplayCase(unit, &rc) {
 		if v, _ := runC16Duplex(&rc); v != "" {
